@@ -193,7 +193,14 @@ def build(kind, par):
                 A2 = A - (w_[0] + rng.uniform(0.2, 0.6)) * np.outer(v_[:, 0], v_[:, 0])
                 if np.all(np.diag(A2) > 0.05):
                     A = A2
-            return [(A + A.T) / 2, rng.standard_normal(n)]
+            A = (A + A.T) / 2
+            if rng.random() < 0.4:      # some dofs decoupled (supports / void regions), coupled again at other times
+                idx = rng.choice(n, size=int(rng.integers(1, n - 1)), replace=False)
+                dg = np.diag(A)[idx].copy()
+                A[idx, :] = 0
+                A[:, idx] = 0
+                A[idx, idx] = dg
+            return [A, rng.standard_normal(n)]
         return net, [sA, sb], [sc, su], 1e-8, genD
     if kind == "aggregation":
         sx = S("x", np.linspace(0.5, 2, par["n"]))
